@@ -1,18 +1,59 @@
 /-
   C10 — bracket combinators match properly nested brackets of every kind.
-  INTERIM file.  Proved here about the reference matcher `Spec.refMatch` (the
-  oracle evaluated on the real combinators): a single properly closed pair is
-  matched with its own indices; a close bracket with nothing open is `unopened`;
-  an abort token before any open bracket stops the search.  The refinement
-  theorem (the model of `match_nested_brackets`, with its run-length-compressed
-  stack, classifies exactly as `refMatch`) is in progress; the `bracket` family
-  + oracle carries the statement meanwhile.
+
+  English.  `bracket*` find the bracket pair to parse between with
+  `match_nested_brackets` (Lean model: `matchLoop`, TephraModel/Run.lean), which
+  walks the lexer's filtered token stream keeping a *run-length-compressed* stack
+  of open brackets `(kind, count)` and a clone of the lexer at the first open
+  bracket.  The specification is `Spec.refMatch` (TephraModel/Spec/Bracket.lean):
+  a plain stack of (kind, token index) over the list of token kinds; token `i`
+  closes token `j` iff they are a properly nested pair of the same kind.
+
+  Part A (pure).  `rleLoop` is the stack logic of `matchLoop` over a list of kinds
+  (same branches, same `unwrap`s as `RleRes.panic`).
+  * `C10_rle_refines_stack`: for every choice of open/close/abort kinds and every
+    list of token kinds (any length, any nesting depth), the RLE loop and the plain
+    stack give the same classification with the same token indices; `mismatch`
+    reports the *first* open bracket, which is `refMatch`'s first component; the
+    RLE loop never panics.  (No precondition on `opens`/`closes` is needed for the
+    agreement; `bracket*` assert equal lengths and disjointness, which is what makes
+    "kind index" mean "bracket kind".)
+  * `C10_rle_invariant`: the refinement invariant `RleInv` (expanding the RLE stack
+    gives the kinds of the plain stack, all counts ≥ 1, adjacent entries of
+    different kinds, first-open index known iff something is open) holds initially
+    and is kept by push / decrement / pop.
+  * `C10_no_unreachable`: the branch that used to be `unreachable!()` (a close
+    bracket ends a run while an enclosing bracket is still open) is a normal
+    continuation — in `rleLoop`, in `matchLoop` and, in lock step, in the plain
+    stack, with the invariant kept and the new top of another kind.
+
+  Part B (lexer).  For any scanner/filter table satisfying the scanner contract
+  `ScanOK` and any lexer satisfying the lexer invariant `LexIter.Inv` (every lexer
+  reachable from `Lexer::new` by the public API does), let `K = kept lx` be the
+  lexer's remaining filtered stream (raw tokens with spans).
+  * `C10_match_refines`: with fuel ≥ |K| + 1, `matchLoop` on `lx` returns exactly
+    what `refMatch` says on the kinds of `K`: `found open close idx` where `open`
+    and `close` are well-formed lexers whose next (peeked) tokens are the
+    `iOpen`-th / `iClose`-th tokens of `K`; each error carries the spans of the
+    tokens with the reported indices (`NoneFound` at end of stream: the empty span
+    at the start cursor).  Never `panic`, never out of fuel
+    (`C10_match_no_panic_no_fuel`; `C10_run_fuel_enough`: the fuel `run` passes is
+    enough).
+  * `C10_bracket_positions`: the `bracket` case of `run`: on a match the inner
+    parser is run on a fresh sub-lexer whose remaining stream is `K` from
+    `iOpen + 1`, and the lexer returned on success (or after a delivered inner
+    error) is the one whose remaining stream is `K` from `iClose + 1`
+    (`C10_bracket_ok_lexer`); otherwise the error of `refMatch` with the spans above.
+
+  Lean: `Tephra.BracketRefine.*` (TephraProofs/BracketRefine.lean).  Unbounded in
+  the token list, the nesting depth, the scanner, the filter.
 -/
 import TephraModel.Run
 import TephraModel.Spec.Bracket
+import TephraProofs.BracketRefine
 
 namespace Tephra.Props
-open Tephra Tephra.Spec
+open Tephra Tephra.Spec Tephra.BracketRefine Tephra.LexIter
 
 theorem C10_ref_unopened (opens closes abort : List Nat) (k : Nat) (ks : List Nat) (kind : Nat)
     (h : closes.findIdx? (· == k) = some kind) :
@@ -30,5 +71,182 @@ theorem C10_ref_empty (opens closes abort : List Nat) : refMatch opens closes ab
 
 example : refMatch [8, 6] [9, 7] [] [8, 6, 0, 7, 9, 1] = .matched 0 4 0 := by decide
 example : refMatch [8, 6] [9, 7] [] [8, 6, 0, 9] = .mismatch 0 1 3 := by decide
+
+/-! ### Part A — the RLE stack refines the plain stack -/
+
+/-- The RLE loop and the plain-stack reference agree on every input (classification
+and indices; `ofRef` only forgets the `iOpenTop` component of `mismatch`). -/
+theorem C10_rle_refines_stack (opens closes abort kinds : List Nat) :
+    rleLoop opens closes abort kinds 0 [] none = ofRef (refMatch opens closes abort kinds) :=
+  rle_refines_stack opens closes abort kinds
+
+/-- the same from any pair of related states -/
+theorem C10_rle_refines_stack_general (opens closes abort ks : List Nat) (i : Nat)
+    (opened stack : List (Nat × Nat)) (first : Option Nat) (h : RleInv opened stack first) :
+    rleLoop opens closes abort ks i opened first
+      = ofRef (refMatchLoop opens closes abort ks i stack first) :=
+  rleLoop_refines opens closes abort ks i opened stack first h
+
+/-- `mismatch`: the RLE loop reports the first open bracket = `refMatch`'s `iOpen0`. -/
+theorem C10_rle_mismatch_first (opens closes abort kinds : List Nat) (a t i : Nat)
+    (h : refMatch opens closes abort kinds = .mismatch a t i) :
+    rleLoop opens closes abort kinds 0 [] none = .mismatch a i := by
+  rw [C10_rle_refines_stack, h]; rfl
+
+theorem C10_rle_matched (opens closes abort kinds : List Nat) (a b k : Nat)
+    (h : refMatch opens closes abort kinds = .matched a b k) :
+    rleLoop opens closes abort kinds 0 [] none = .found a b k := by
+  rw [C10_rle_refines_stack, h]; rfl
+
+theorem C10_rle_no_panic (opens closes abort kinds : List Nat) :
+    rleLoop opens closes abort kinds 0 [] none ≠ .panic :=
+  rle_no_panic opens closes abort kinds
+
+/-- The refinement invariant holds initially and is kept by the three stack moves. -/
+theorem C10_rle_invariant :
+    RleInv [] [] none ∧
+    (∀ opened stack first idx i, RleInv opened stack first →
+      RleInv (rlePush idx opened) ((idx, i) :: stack) (firstOpen first i)) ∧
+    (∀ t cnt rest top stack first, RleInv ((t, cnt) :: rest) (top :: stack) first → 1 < cnt →
+      RleInv ((t, cnt - 1) :: rest) stack first ∧ stack ≠ []) ∧
+    (∀ t rest top stack first, RleInv ((t, 1) :: rest) (top :: stack) first → stack ≠ [] →
+      RleInv rest stack first) := by
+  refine ⟨RleInv.init, fun _ _ _ idx i h => h.push idx i, fun _ _ _ _ _ _ h hc => h.dec hc, ?_⟩
+  intro t rest top stack first h hs
+  obtain ⟨h1, h2, h3, h4⟩ := h.pop
+  refine ⟨h1, h2, h3, ?_⟩
+  have := h.first
+  simp_all
+
+/-- The repaired `unreachable!()`: a close bracket ends a run (`count = 1`) while an
+enclosing bracket is still open.  The RLE loop simply continues with the run
+popped; the plain stack continues too, the invariant is kept, and the new top is
+of a different kind. -/
+theorem C10_no_unreachable (opens closes abort : List Nat) (k idx : Nat) (ks : List Nat) (i : Nat)
+    (rest stack : List (Nat × Nat)) (first : Option Nat)
+    (hcl : position closes k = some idx) (hrest : rest ≠ [])
+    (hinv : RleInv ((idx, 1) :: rest) stack first) :
+    rleLoop opens closes abort (k :: ks) i ((idx, 1) :: rest) first
+      = rleLoop opens closes abort ks (i + 1) rest first ∧
+    ∃ top stack', stack = top :: stack' ∧ stack' ≠ [] ∧ RleInv rest stack' first ∧
+      (match rest with | [] => True | (t, _) :: _ => t ≠ idx) ∧
+      refMatchLoop opens closes abort (k :: ks) i stack first
+        = refMatchLoop opens closes abort ks (i + 1) stack' first :=
+  ⟨rle_pop_nonempty opens closes abort k idx ks i rest first hcl hrest,
+   ref_pop_nonempty opens closes abort k idx ks i rest stack first hcl hrest hinv⟩
+
+/-- the same branch in the model of `match_nested_brackets` itself -/
+theorem C10_no_unreachable_model (R : RunEnv) (opens closes abort : List Nat) (sp : Span) (n : Nat)
+    (lexer lexer' : Lx) (tok : Tok) (ol : Option Lx) (idx : Nat) (rest : List (Nat × Nat))
+    (hpk : lexer.peek R.E = (some tok, lexer')) (hcl : position closes tok.kind = some idx)
+    (hrest : rest ≠ []) :
+    matchLoop R opens closes abort sp (n + 1) lexer ol ((idx, 1) :: rest)
+      = matchLoop R opens closes abort sp n (lexer'.next R.E).2 ol rest :=
+  matchLoop_pop_nonempty R opens closes abort sp n lexer lexer' tok ol idx rest hpk hcl hrest
+
+example : rleLoop [8, 6] [9, 7] [] [8, 8, 6, 6, 0, 7, 7, 9, 9, 1] 0 [] none = .found 0 8 0 := by decide
+example : rleLoop [8, 6] [9, 7] [] [8, 6, 0, 9] 0 [] none = .mismatch 0 3 := by decide
+example : RleInv [(1, 2), (0, 1)] [(1, 5), (1, 4), (0, 2)] (some 2) :=
+  ⟨rfl, by simp, ⟨by decide, trivial⟩, by simp⟩
+
+/-! ### Part B — the lexer -/
+
+/-- `match_nested_brackets` on a lexer = `refMatch` on the kinds of the lexer's
+remaining filtered stream `K`; see `MatchRel` for how lexers and spans are read. -/
+theorem C10_match_refines (R : RunEnv) (opens closes abort : List Nat) {m : Metrics} {len : Nat}
+    {f : Option Nat} (ok : ScanOK R.E m len) {lx : Lx} (inv : Inv R.E m len f lx) (fuel : Nat)
+    (hfuel : (kept R.E m len lx).length + 1 ≤ fuel) :
+    MatchRel R.E m len f (kept R.E m len lx) (Span.at_ lx.cursor)
+      (matchLoop R opens closes abort (Span.at_ lx.cursor) fuel lx none [])
+      (ofRef (refMatch opens closes abort ((kept R.E m len lx).map (·.tok.kind)))) := by
+  rw [← rle_refines_stack]
+  exact matchLoop_spec R opens closes abort ok inv fuel hfuel
+
+theorem C10_run_fuel_enough {E : LexEnv Nat Tok} {m : Metrics} {len : Nat} {f : Option Nat}
+    (ok : ScanOK E m len) {lx : Lx} (inv : Inv E m len f lx) :
+    (kept E m len lx).length + 1 ≤ lx.len + 2 :=
+  run_fuel_enough ok inv
+
+theorem C10_match_no_panic_no_fuel (R : RunEnv) (opens closes abort : List Nat) {m : Metrics} {len : Nat}
+    {f : Option Nat} (ok : ScanOK R.E m len) {lx : Lx} (inv : Inv R.E m len f lx) (fuel : Nat)
+    (hfuel : (kept R.E m len lx).length + 1 ≤ fuel) :
+    (∀ x, matchLoop R opens closes abort (Span.at_ lx.cursor) fuel lx none [] = x →
+      (match x with | .panic => False | .fuel => False | _ => True)) := by
+  intro x hx
+  have := C10_match_refines R opens closes abort ok inv fuel hfuel
+  rw [hx] at this
+  generalize ofRef (refMatch opens closes abort ((kept R.E m len lx).map (·.tok.kind))) = rr at this
+  cases this <;> trivial
+
+/-- The success path spelled out: if the reference matches token `iOpen` with
+token `iClose` (kind `k`), `matchLoop` returns lexers peeked at exactly those
+tokens, and the kind. -/
+theorem C10_match_found (R : RunEnv) (opens closes abort : List Nat) {m : Metrics} {len : Nat}
+    {f : Option Nat} (ok : ScanOK R.E m len) {lx : Lx} (inv : Inv R.E m len f lx) (fuel : Nat)
+    (hfuel : (kept R.E m len lx).length + 1 ≤ fuel) (iOpen iClose k : Nat)
+    (h : refMatch opens closes abort ((kept R.E m len lx).map (·.tok.kind)) = .matched iOpen iClose k) :
+    ∃ o c, matchLoop R opens closes abort (Span.at_ lx.cursor) fuel lx none [] = .found o c k ∧
+      Peeked R.E m len f (kept R.E m len lx) iOpen o ∧ Peeked R.E m len f (kept R.E m len lx) iClose c := by
+  have := C10_match_refines R opens closes abort ok inv fuel hfuel
+  rw [h] at this
+  generalize matchLoop R opens closes abort (Span.at_ lx.cursor) fuel lx none [] = x at this
+  cases this with
+  | found ho hc => exact ⟨_, _, rfl, ho, hc⟩
+
+/-- The `bracket` case of `run` against the reference matcher. -/
+theorem C10_bracket_positions (R : RunEnv) {m : Metrics} {len : Nat} {f : Option Nat}
+    (ok : ScanOK R.E m len) {lx : Lx} (inv : Inv R.E m len f lx)
+    (n v : Nat) (opens closes abort : List Nat) (a : G) (ctx : Ctx) (W : World)
+    (hpre : (opens.isEmpty || closes.isEmpty || opens.length != closes.length
+              || opens.any (closes.contains ·)) = false) :
+    BracketOutcome R m len f (kept R.E m len lx) (Span.at_ lx.cursor) n v a ctx W
+      (run R (n + 1) (.bracket v opens a closes abort) lx ctx W)
+      (ofRef (refMatch opens closes abort ((kept R.E m len lx).map (·.tok.kind)))) := by
+  rw [← rle_refines_stack]
+  exact run_bracket R ok inv n v opens closes abort a ctx W hpre
+
+/-- A successful `bracket` parse: the reference matched some `iOpen`/`iClose`, and
+the returned lexer's remaining filtered stream starts right after the close bracket. -/
+theorem C10_bracket_ok_lexer (R : RunEnv) {m : Metrics} {len : Nat} {f : Option Nat}
+    (ok : ScanOK R.E m len) {lx : Lx} (inv : Inv R.E m len f lx)
+    (n v : Nat) (opens closes abort : List Nat) (a : G) (ctx : Ctx) (W : World)
+    (hpre : (opens.isEmpty || closes.isEmpty || opens.length != closes.length
+              || opens.any (closes.contains ·)) = false)
+    (x : Val) (lx' : Lx) (W' : World)
+    (h : run R (n + 1) (.bracket v opens a closes abort) lx ctx W = (.ok x lx', W')) :
+    ∃ iOpen iClose k,
+      refMatch opens closes abort ((kept R.E m len lx).map (·.tok.kind)) = .matched iOpen iClose k ∧
+      AtIdx R.E m len f (kept R.E m len lx) (iClose + 1) lx' := by
+  have hb := C10_bracket_positions R ok inv n v opens closes abort a ctx W hpre
+  rw [h] at hb
+  generalize hr : refMatch opens closes abort ((kept R.E m len lx).map (·.tok.kind)) = rr at hb
+  generalize hx : ((.ok x lx', W') : RRes × World) = res at hb
+  cases rr with
+  | matched j i k =>
+    refine ⟨j, i, k, rfl, ?_⟩
+    simp only [ofRef] at hb
+    cases hb with
+    | found hi _ hc =>
+      rw [bracketFinish_ok hx.symm]
+      exact hc
+  | noneFound o => cases o <;> (simp only [ofRef] at hb; cases hb <;> cases hx)
+  | unopened i => simp only [ofRef] at hb; cases hb; cases hx
+  | unclosed i => simp only [ofRef] at hb; cases hb; cases hx
+  | mismatch a b c => simp only [ofRef] at hb; cases hb; cases hx
+
+/-! non-vacuity: a table scanner over `[ ( ws ) ] a`, filter rejecting `ws` -/
+section
+private def mW : Metrics := ⟨.lf, 4⟩
+private def RW : RunEnv := ⟨Witness.tabEnv [8, 6, 12, 7, 9, 0], []⟩
+private def lxW : Lx := fresh 0 mW 6 (some 0)
+
+example : ScanOK RW.E mW 6 ∧ Inv RW.E mW 6 (some 0) lxW := ⟨Witness.tab_ok _ _, inv_fresh 0 (some 0)⟩
+example : (kept RW.E mW 6 lxW).map (·.tok.kind) = [8, 6, 7, 9, 0] := by decide
+example : refMatch [8, 6] [9, 7] [] [8, 6, 7, 9, 0] = .matched 0 3 0 := by decide
+example : ∃ o c, matchLoop RW [8, 6] [9, 7] [] (Span.at_ lxW.cursor) (lxW.len + 2) lxW none [] = .found o c 0 ∧
+    Peeked RW.E mW 6 (some 0) (kept RW.E mW 6 lxW) 0 o ∧ Peeked RW.E mW 6 (some 0) (kept RW.E mW 6 lxW) 3 c :=
+  C10_match_found RW [8, 6] [9, 7] [] (Witness.tab_ok _ _) (inv_fresh 0 (some 0)) _
+    (C10_run_fuel_enough (Witness.tab_ok _ _) (inv_fresh 0 (some 0))) 0 3 0 (by decide)
+end
 
 end Tephra.Props
